@@ -19,6 +19,19 @@ pub fn clear_hook() {
     *HOOK.write().unwrap_or_else(|e| e.into_inner()) = None;
 }
 
+/// Calls the hook with `site` until `available()` holds. Placed in front of a blocking lock
+/// acquisition so that a scheduler owning the interleaving never lets a thread block in the
+/// operating system: the thread keeps yielding while the lock is taken. Without an installed
+/// hook this returns at once.
+pub fn await_lock(site: &'static str, mut available: impl FnMut() -> bool) {
+    if HOOK.read().unwrap_or_else(|e| e.into_inner()).is_none() {
+        return;
+    }
+    while !available() {
+        yield_point(site);
+    }
+}
+
 /// Calls the installed hook, if any, with the name of the site.
 #[inline]
 pub fn yield_point(site: &'static str) {
